@@ -409,7 +409,9 @@ impl GatewayBinder {
             v.push_back(self.signers(s));
         }
         let min_delay: u64 = self.inst["MinDelay"].as_u64().unwrap() * self.qt;
-        let retention: u64 = self.inst["Retention"].as_u64().unwrap();
+        // abstract retention 2^31-1 (resp. 2^31-2) stands for u64::MAX (resp. u64::MAX - 1): "keep old sets for ever"
+        let r = self.inst["Retention"].as_u64().unwrap();
+        let retention: u64 = if r >= 2147483646 { u64::MAX - (2147483647 - r) } else { r };
         self.cx.set_time(self.time());
         let domain = BytesN::from_array(&env, &DOMAIN);
         let r = std::panic::catch_unwind(std::panic::AssertUnwindSafe(|| {
